@@ -555,6 +555,86 @@ def w16(ctx, rid):
             ctx.ok(rid, key, bykey[0].where(), 'headers grouped by key lookup (%s); no positional map access' % sorted({c.name for c in bykey}))
 
 
+def w17(ctx, rid):
+    """`accept every blob the storage produces` includes the blob without a record (a fresh or just rotated active blob, the
+    output of recovering a blob whose first record is damaged): every tool loop asks is_eof() before *each* read_record - the
+    read is reached from the function entry and from the previous read only through the `not at the end` edge of is_eof()"""
+    prog = ctx.prog
+    n = 0
+    for f in prog.fns.values():
+        if not f.file.startswith('src/tools/') or f.file == 'src/tools/blob_reader.rs':
+            continue
+        reads = [c for c in f.calls if c.bb in f.reachable() and c.name == 'read_record' and 'BlobReader' in c.path]
+        if not reads:
+            continue
+        more = []
+        for i in f.reachable():
+            t = f.blocks[i]['t']
+            if t['k'] != 'switch':
+                continue
+            ogs = core.origins(f, t['o'])
+            neg = False
+            if ogs and all(o.kind == 'unop' and o.data.get('op') == 'Not' for o in ogs):
+                neg = True
+                ogs = [x for o in ogs for x in core.origins(f, o.data['o'])]
+            if not ogs or not all(o.kind == 'call' and o.data.name == 'is_eof' for o in ogs):
+                continue
+            if neg:
+                more.append(t['otherwise'])
+            else:
+                more += [tg for v, tg in t['vals'] if v == 0]
+        for c in reads:
+            n += 1
+            key = 'eof-asked-before-every-read|%s' % prog.fns[f.id].root
+            starts = [0] + [x for r in reads for x in f.after(r.bb)]
+            if not more or c.bb in f.reach_from(starts, avoid_enter=more):
+                ctx.bad(rid, key, c.where(), 'a record is read without asking is_eof() first (from the function entry or right after the previous record): '
+                        'a blob that holds only its header - which the storage produces - is rejected / a read runs past the last record')
+            else:
+                ctx.ok(rid, key, c.where(), 'reached only through the `more data` edge of is_eof()')
+    if n < 3:
+        raise core.AnchorLost('read_record loops in src/tools: %d' % n)
+
+
+def w18(ctx, rid):
+    """`and after an isolated damaged record when skipping is requested`: in read_record every record-level validation error
+    (RecordHeaderValidation, RecordValidation) leads on to the next record; from the match edge of such a variant the only
+    ways out are the skip (whose own failure may end the read) and the next read - never a return of the original error, also
+    not behind a further condition on the damaged header"""
+    prog = ctx.prog
+    f = prog.fns.get('tools::blob_reader::BlobReader::read_record')
+    adt = prog.adts.get('tools::error::ToolsError')
+    if f is None or adt is None:
+        raise core.AnchorLost('BlobReader::read_record / ToolsError')
+    names = [v['name'] for v in adt['variants']]
+    n = 0
+    for i in sorted(f.reachable()):
+        if f.blocks[i]['t']['k'] != 'switch':
+            continue
+        kind, ty = core.switch_kind(f, i)
+        if kind != 'enum' or 'ToolsError' not in str(ty):
+            continue
+        t = f.blocks[i]['t']
+        vals = dict(t['vals'])
+        for nm in ('RecordHeaderValidation', 'RecordValidation'):
+            if nm not in names:
+                continue
+            n += 1
+            key = 'record-error-continues|%s' % nm
+            edge = vals.get(names.index(nm), t['otherwise'])
+            skips = [c.bb for c in f.calls if c.name == 'skip_wrong_record_data' and c.bb in f.reachable()]
+            nxt = [c.bb for c in f.calls if c.name == 'read_single_record' and c.bb in f.reachable()]
+            free = f.reach_from([edge], avoid_exit=skips + nxt)
+            outs = [bb for (bb, k, _) in core.exit_defs(f) if bb in free]
+            if outs:
+                ctx.bad(rid, key, f.where(outs[0]), 'with skipping requested, a %s error can end read_record with the original error (no skip, no next read on that path): '
+                        'recovery stops at the damaged record and drops every intact record behind it' % nm)
+            else:
+                ctx.ok(rid, key, f.where(edge), 'leads to the skip / the next read on every path')
+    if n < 2:
+        raise core.AnchorLost('ToolsError match arms in read_record: %d' % n)
+
+
 def w14(ctx, rid):
     """the output writer re-validates exactly what it wrote since the last round: whenever records leave its cache (clear, drain,
     take ..) the byte counter of the cached records is reset in the same function - otherwise the next round seeks to the
@@ -605,5 +685,7 @@ RULES = [
     Rule('C16.W14', 'the output writer resets its cached-bytes counter wherever records leave its cache', w14, 1),
     Rule('C16.W15', 'every ok return of the recovery / migration driver passes the creation of the output and the write of its header', w15, 1),
     Rule('C16.W16', 'the sequential index loader groups headers by key lookup, never by map position (tools load with a byte-wise key order)', w16, 1),
+    Rule('C16.W17', 'every tool loop asks is_eof() before each read_record (a header-only blob is a valid blob)', w17, 3),
+    Rule('C16.W18', 'with skipping requested a record-level validation error always leads on to the next record', w18, 2),
     Rule('C16.W7', 'the index tools load through the validating loader and validate every reported header', w7, 2),
 ]
